@@ -652,6 +652,22 @@ func runC15(c *Ctx) {
 			})
 		})
 	}
+	// stdlib map iterators (maps.Keys / maps.Values / maps.All) outside a range statement: the sequence must go straight
+	// into slices.Sorted*, or be collected into a variable that is sorted afterwards
+	for _, p := range c.Pkgs {
+		AllFuncDecls(p, func(fd *ast.FuncDecl) {
+			if reachDecl[fd] == nil || fd.Body == nil {
+				return
+			}
+			scanMapIterators(c, p, fd, func(call *ast.CallExpr, name string, okSite bool) {
+				nRanges++
+				nUnordered++
+				key := fmt.Sprintf("%s: %s", funcKey(p, fd), types.ExprString(call))
+				c.Check("R15.1", key+": the key/value sequence of a Go map is sorted before it is used", call.Pos(), okSite,
+					"maps."+name+" yields the entries in Go's randomised map order and the sequence is neither ranged over under the loop rule, nor passed to slices.Sorted*, nor sorted after being collected: what is built from it differs from run to run", "run twice")
+			})
+		})
+	}
 	c.Extra("range_statements_examined", nRanges)
 	c.Extra("unordered_ranges", nUnordered)
 	c.Check("R15.1", "range statements were examined", token.NoPos, nRanges >= 30, fmt.Sprintf("only %d range statements in reachable module code", nRanges))
@@ -684,6 +700,18 @@ func runC15(c *Ctx) {
 				return true
 			})
 		})
+		firedIt, silentIt := false, true
+		AllFuncDecls(p, func(fd *ast.FuncDecl) {
+			scanMapIterators(c, p, fd, func(call *ast.CallExpr, name string, ok bool) {
+				if !ok && fd.Name.Name == "LeakyKeys" {
+					firedIt = true
+				}
+				if !ok && fd.Name.Name == "SortedKeys" {
+					silentIt = false
+				}
+			})
+		})
+		c.Check("R15.1", "positive control: fires on slices.Collect(maps.Keys(m)) and is silent on slices.Sorted(maps.Keys(m))", token.NoPos, firedIt && silentIt, fmt.Sprintf("fired=%v silent=%v", firedIt, silentIt))
 		c.Check("R15.1", "positive control: fires on a map loop that appends without sorting", token.NoPos, fired, "the rule did not fire on the fixture")
 		c.Check("R15.1", "positive control: silent on a map loop whose result is sorted", token.NoPos, silent, "the rule fired on the sorted fixture")
 	}
@@ -780,4 +808,54 @@ func runC15(c *Ctx) {
 	if sched == 0 {
 		c.Pass("R15.3", "no go statement, channel operation or WaitGroup in reachable module code", token.NoPos, fmt.Sprintf("%d module functions", len(ri.module())))
 	}
+}
+
+// scanMapIterators reports every call of maps.Keys / maps.Values / maps.All in fd together with whether its consumer fixes the order.
+func scanMapIterators(c *Ctx, p *packages.Package, fd *ast.FuncDecl, report func(call *ast.CallExpr, name string, ok bool)) {
+	info := p.TypesInfo
+	var stack []ast.Node
+	ast.Inspect(fd.Body, func(n ast.Node) bool {
+		if n == nil {
+			stack = stack[:len(stack)-1]
+			return true
+		}
+		stack = append(stack, n)
+		call, ok := n.(*ast.CallExpr)
+		if !ok {
+			return true
+		}
+		fn, _ := objOf(info, call.Fun).(*types.Func)
+		if fn == nil || fn.Pkg() == nil || fn.Pkg().Path() != "maps" || !(fn.Name() == "Keys" || fn.Name() == "Values" || fn.Name() == "All") {
+			return true
+		}
+		okSite := false
+	up:
+		for i := len(stack) - 2; i >= 0; i-- {
+			switch par := stack[i].(type) {
+			case *ast.ParenExpr:
+				continue
+			case *ast.RangeStmt:
+				okSite = true // decided by the loop rule
+			case *ast.CallExpr:
+				pf, _ := objOf(info, par.Fun).(*types.Func)
+				if pf != nil && pf.Pkg() != nil && pf.Pkg().Path() == "slices" {
+					if strings.HasPrefix(pf.Name(), "Sorted") {
+						okSite = true
+					} else if pf.Name() == "Collect" || pf.Name() == "AppendSeq" {
+						continue
+					}
+				}
+			case *ast.AssignStmt:
+				if len(par.Lhs) == 1 {
+					lk := leak{pos: par.Pos(), what: "collects the elements into " + types.ExprString(par.Lhs[0]), sink: par.Lhs[0]}
+					if ok2, _ := discharged(c, p, fd, &ast.RangeStmt{For: par.Pos(), X: call, Body: &ast.BlockStmt{Lbrace: par.Pos(), Rbrace: par.Pos()}}, lk); ok2 {
+						okSite = true
+					}
+				}
+			}
+			break up
+		}
+		report(call, fn.Name(), okSite)
+		return true
+	})
 }
